@@ -6,6 +6,8 @@ import os
 ROOT = os.path.dirname(os.path.dirname(os.path.abspath(__file__)))
 
 # harness packages built by setup (name, kwargs for vlib.cargo_build)
+DOM_PACKAGES = [("dom-driver", {})]
+
 HARNESS_PACKAGES = [
     ("router-driver", {}),
     ("macro-driver", {}),
@@ -138,6 +140,31 @@ CHECKS["C15"] = dict(
           "result of some started fetch. The system is compared with the real create_isomorphic_resource under 0-3/0-4 writes x every subset, order and placement of completions (incl. never, "
           "stale, repeated) and the oracle restates the three clauses on the observed sequence."),
     note=ATB + " The abort of the previous fetch by the effect's cleanup is part of the runtime covered by C04/C14.", design="5.C15")
+
+DTB = ("Trusted: the in-process DOM harness/dom/shims (web-sys / js-sys / wasm-bindgen stand-ins: WHATWG pre-insert / remove / replace, fragment flattening, an HTML parser for server output) in place of a browser; "
+       "tools/domgen.py, which regenerates the crate root of the client build from /repo's lib.rs with the client polarity so that dom_node.rs / hydrate_node.rs / iter.rs / components.rs etc. are compiled verbatim; the drivers and python oracles. ")
+CHECKS["C06"] = dict(
+    technique="Coq theorem by computation over a bounded domain (bound in the statement) on a literal Gallina model of reconcile_fragments + differential correspondence against the real routine on an in-process DOM + oracle",
+    text=("Dom/Reconcile.v models reconcile_fragments branch by branch over an abstract child list (move semantics of insertBefore / replaceChild, the one-shot map, the in-place write of the swap branch). "
+          "BOUNDED theorems by vm_compute, bound in the statement: for every duplicate-free old sequence over 5 nodes x every duplicate-free new sequence over those and one new node (638k pairs), called with the end "
+          "marker as Keyed / Indexed do, between siblings: children afterwards = pre ++ new ++ post and every touched node belongs to old or new; the same without the marker over 4 + 2 nodes. The unbounded theorem is not "
+          "proved. The model is compared with the REAL routine (through the add-only hook verif_reconcile_fragments, compiled natively against the DOM shims) on ~12k (quick) / ~125k (thorough) cases incl. random "
+          "sequences of length 5-40 biased to each branch; the oracle checks children, detachment of leavers and that nothing outside the region is touched. Chains through the real Keyed / Indexed components are part of C05's check."),
+    note=DTB, design="5.C06")
+CHECKS["C05"] = dict(
+    category="other",
+    technique="differential check of the real client back end on an in-process DOM: in-place updates vs a fresh render by the same code, plus an identity oracle; no theorem yet",
+    text=("Random view trees (depth <= 4, arbitrary nesting of dynamic text / views, Show, Keyed / Indexed, components, NoSsr / NoHydrate, dynamic attributes) are rendered by the REAL DomNode / HydrateNode code compiled natively "
+          "against the DOM shims; after the initial render and after each of 1-6 signal writes the DOM under the mount point must equal a fresh render of the current state made by the same code in a second root, nodes outside "
+          "the changed dynamic regions must keep their identity (python reference structure aligned with the dumped DOM), no console warnings, no panics. Genuine defect found and recorded as known finding F9. Level `other`: no Coq theorem."),
+    note=DTB, design="5.C05")
+CHECKS["C09"] = dict(
+    category="other",
+    technique="end-to-end differential check: real SSR output -> parsed into the in-process DOM -> real hydration code; identity of adopted elements, visible tree, later updates vs fresh client render; no theorem yet",
+    text=("For ~500 (quick) / ~6000 (thorough) random views plus hand-picked soft spots, the server string produced by the real native SSR build is parsed into the in-process DOM and hydrated by the real HydrateNode code; checked: "
+          "no panic, every server element adopted exactly once in place (ids before = ids after, all and only keyed elements stamped), visible tree unchanged, and after 0-4 signal writes the visible tree equals a fresh client render. "
+          "Genuine defects found and recorded as known findings F9-F13 (lists, Show(false), Show with text children). Level `other`: no Coq theorem."),
+    note=DTB, design="5.C09")
 
 NOT_YET = {}
 
